@@ -71,6 +71,7 @@ func runC05(w *World, r *Report) {
 	// checkpoint ahead of unacknowledged packs
 	r.importRules(runC14, "C05-", map[string]bool{"C14-R1": true, "C14-R2": true, "C14-R3": true, "C14-R5": true})
 	c12R4(w, r, "C05-R3")
+	c12DropMarksAll(w, r, "C05-R8")
 
 	writeSyms := map[string]int{"HandleReplicateMessage": 2, "HandleOpMessagePack": 1} // name -> index of the error result
 	// ---------- R1 / R5 / R6: persist call sites
